@@ -1,5 +1,204 @@
-(** C30 -- placeholder, theorems follow. *)
-From Coq Require Import String List NArith.
-From TLV Require Import Lint.LintModel Lint.LintProofs.
-Example C30_ex0 : lint nil nil = Accept.
+(** C30 -- the backward-compatibility linter rejects the documented unsafe schema evolutions.
+    Property theorems only (model: Lint/LintModel.v).
+
+    The model reproduces the code AS IT IS ([lint]) and, switched by [fixes], the code with the
+    proposed one-line repairs ([lint_fixed]).  For the code as it is the property is REFUTED at
+    three points (theorems [lint_refuted_bare_flag] = finding F2, [lint_crash_args] = F3,
+    [lint_refuted_repeat]; each witness is the dump of a real schema pair and is replayed on the
+    real linter by lib/checks/C30.py).  The rejection theorems need, of the repairs, exactly:
+    [fx_args] (no panic) for all of them, [fx_bare] for a changed field type, [fx_rep] for a
+    changed repetition -- they are stated for [lint_with fx] with that premise, or for
+    [lint_fixed].  Each is for an ARBITRARY position: the edited combinator is anywhere in the
+    schema ([l1 ++ c :: l2]), the edited field anywhere in its combinator ([fs1 ++ f :: fs2]). *)
+From Coq Require Import String List NArith ZArith Bool.
+From TLV Require Import Lint.LintModel Lint.LintProofs Lint.LintEdits.
+Import ListNotations.
+Open Scope string_scope.
+Open Scope list_scope.
+
+(* ---- the code as it is: refutations (witnesses = dumps of real schema pairs) *)
+
+Definition f2_old : schema :=
+  [mkComb "int" 2823855066 true false [] [] "Int" (TRef "" false []);
+   mkComb "foo" 286331153 false false [] [mkField "a" None "" (TRef "int" false [])] "Foo" (TRef "" false []);
+   mkComb "bar" 572662306 false false [] [mkField "x" None "" (TRef "Foo" true []); mkField "y" None "" (TRef "int" false [])] "Bar" (TRef "" false [])].
+Definition f2_new : schema :=
+  [mkComb "int" 2823855066 false false [] [mkField "" None "" (TRef "int" true [])] "Int" (TRef "" false []);
+   mkComb "foo" 286331153 false false [] [mkField "a" None "" (TRef "int" false [])] "Foo" (TRef "" false []);
+   mkComb "bar" 572662306 false false [] [mkField "x" None "" (TRef "Foo" false []); mkField "y" None "" (TRef "int" false [])] "Bar" (TRef "" false [])].
+
+(** F2: [bar x:%Foo y:int] -> [bar x:Foo y:int] (a 4-byte tag appears on the wire) is accepted:
+    compareTypes never looks at TypeRef.Bare. *)
+Theorem lint_refuted_bare_flag : lint f2_old f2_new = Accept /\ lint_fixed f2_old f2_new = Reject RRefChanged.
+Proof. split; vm_compute; reflexivity. Qed.
+Print Assumptions lint_refuted_bare_flag.
+
+Definition f3_old : schema :=
+  [mkComb "int" 2823855066 true false [] [] "Int" (TRef "" false []);
+   mkComb "a" 286331153 false false [] [mkField "p" None "" (TRef "pair" false [TRef "int" false []; TRef "int" false []])] "A" (TRef "" false []);
+   mkComb "pair" 572662306 false false [mkTArg "X" false; mkTArg "Y" false] [mkField "x" None "" (TRef "X" false []); mkField "y" None "" (TRef "Y" false [])] "Pair" (TRef "" false [])].
+Definition f3_new : schema :=
+  [mkComb "int" 2823855066 false false [] [mkField "" None "" (TRef "int" true [])] "Int" (TRef "" false []);
+   mkComb "a" 286331153 false false [] [mkField "p" None "" (TRef "pair" false [TRef "int" false []])] "A" (TRef "" false []);
+   mkComb "pair" 572662306 false false [mkTArg "X" false] [mkField "x" None "" (TRef "X" false [])] "Pair" (TRef "" false [])].
+
+(** F3: a template argument removed from a type declared AFTER its user: compareTypes indexes
+    newType.Args[i] for i < len(oldType.Args) -- a panic instead of a rejection. *)
+Theorem lint_crash_args : lint f3_old f3_new = Crash /\ lint_fixed f3_old f3_new = Reject RArgChanged.
+Proof. split; vm_compute; reflexivity. Qed.
+Print Assumptions lint_crash_args.
+
+Definition rep_old : schema :=
+  [mkComb "int" 2823855066 true false [] [] "Int" (TRef "" false []);
+   mkComb "long" 570911930 true false [] [] "Long" (TRef "" false []);
+   mkComb "a" 286331153 false false [] [mkField "n" None "" (TRef "#" false []); mkField "x" None "rep:n*[int]" (TRef "" false [])] "A" (TRef "" false [])].
+Definition rep_new : schema :=
+  [mkComb "int" 2823855066 false false [] [mkField "" None "" (TRef "int" true [])] "Int" (TRef "" false []);
+   mkComb "long" 570911930 false false [] [mkField "" None "" (TRef "long" true [])] "Long" (TRef "" false []);
+   mkComb "a" 286331153 false false [] [mkField "n" None "" (TRef "#" false []); mkField "x" None "rep:n*[long]" (TRef "" false [])] "A" (TRef "" false [])].
+
+(** New finding: the linter compares Field.FieldType only, which is the empty TypeRef for a
+    repetition [n*[...]]: [x:n*[int]] -> [x:n*[long]] is accepted. *)
+Theorem lint_refuted_repeat : lint rep_old rep_new = Accept /\ lint_fixed rep_old rep_new = Reject RRepChanged.
+Proof. split; vm_compute; reflexivity. Qed.
+Print Assumptions lint_refuted_repeat.
+
+Definition uni_old : schema :=
+  [mkComb "int" 2823855066 true false [] [] "Int" (TRef "" false []);
+   mkComb "foo" 286331153 false false [] [mkField "a" None "" (TRef "int" false [])] "Foo" (TRef "" false []);
+   mkComb "pair" 572662306 false false [mkTArg "X" false; mkTArg "Y" false] [mkField "x" None "" (TRef "X" false []); mkField "y" None "" (TRef "Y" false [])] "Pair" (TRef "" false []);
+   mkComb "baz" 1145324612 false false [] [mkField "x" None "" (TRef "pair" false [TRef "int" false []; TRef "Foo" true []])] "Baz" (TRef "" false [])].
+Definition uni_new : schema :=
+  [mkComb "int" 2823855066 true false [] [] "Int" (TRef "" false []);
+   mkComb "foo" 286331153 false false [] [mkField "a" None "" (TRef "int" false [])] "Foo" (TRef "" false []);
+   mkComb "foo2" 286331154 false false [] [] "Foo" (TRef "" false []);
+   mkComb "pair" 572662306 false false [mkTArg "X" false; mkTArg "Y" false] [mkField "x" None "" (TRef "X" false []); mkField "y" None "" (TRef "Y" false [])] "Pair" (TRef "" false []);
+   mkComb "baz" 1145324612 false false [] [mkField "x" None "" (TRef "pair" false [TRef "int" false []; TRef "Foo" true []])] "Baz" (TRef "" false [])].
+
+(** Latent (not reachable through tlgen, whose own validation refuses a bare reference to a
+    union; reachable through a direct call of CheckBackwardCompatibility, as the repository's
+    unit test does): checkBoxUsage returns from inside its loop, so only the FIRST type argument
+    is inspected: [baz x:(pair int %Foo)] does not stop [Foo] from becoming a union.  No repair
+    is modelled for it: the theorem below about unions is for the inspected positions. *)
+Theorem lint_refuted_union_deep : lint uni_old uni_new = Accept /\ lint_fixed uni_old uni_new = Accept.
+Proof. split; vm_compute; reflexivity. Qed.
+Print Assumptions lint_refuted_union_deep.
+
+(* ---- the repaired linter: rejection theorems *)
+
+(** never a panic *)
+Theorem C30_no_panic : forall a a', lint_fixed a a' <> Crash.
+Proof. intros a a'. apply lint_no_crash. reflexivity. Qed.
+Print Assumptions C30_no_panic.
+
+(** removing a constructor or a function, wherever it is declared *)
+Theorem C30_remove_combinator : forall l1 c l2,
+  wf (l1 ++ c :: l2) -> is_type c || c_fun c = true ->
+  exists code, lint_fixed (l1 ++ c :: l2) (l1 ++ l2) = Reject code.
+Proof. intros l1 c l2. apply reject_remove. reflexivity. Qed.
+Print Assumptions C30_remove_combinator.
+
+(** removing fields (any of them: the new version has fewer) *)
+Theorem C30_remove_field : forall l1 c c' l2,
+  wf (l1 ++ c :: l2) -> is_type c || c_fun c = true -> same_head c c' ->
+  (length (c_fields c') < length (c_fields c))%nat ->
+  exists code, lint_fixed (l1 ++ c :: l2) (l1 ++ c' :: l2) = Reject code.
+Proof. intros l1 c c' l2. apply reject_fewer_fields. reflexivity. Qed.
+Print Assumptions C30_remove_field.
+
+(** removing template arguments *)
+Theorem C30_remove_template_argument : forall l1 c c' l2,
+  wf (l1 ++ c :: l2) -> is_type c || c_fun c = true -> same_head c c' ->
+  (length (c_targs c') < length (c_targs c))%nat ->
+  exists code, lint_fixed (l1 ++ c :: l2) (l1 ++ c' :: l2) = Reject code.
+Proof. intros l1 c c' l2. apply reject_fewer_template_arguments. reflexivity. Qed.
+Print Assumptions C30_remove_template_argument.
+
+(** changing the type of an existing field (types that do not mention the combinator's own
+    template arguments or fields): anything but appending type arguments is refused *)
+Theorem C30_change_field_type : forall l1 c c' l2 fs1 of nf fs2 fs2' oname obare oargs nname nbare nargs,
+  wf (l1 ++ c :: l2) -> is_type c || c_fun c = true -> same_head c c' ->
+  c_fields c = fs1 ++ of :: fs2 -> c_fields c' = fs1 ++ nf :: fs2' ->
+  f_ty of = TRef oname obare oargs -> f_ty nf = TRef nname nbare nargs ->
+  closed (mapping c) (f_ty of) -> closed (mapping c') (f_ty nf) ->
+  ~ ty_prefix (f_ty of) (f_ty nf) ->
+  exists code, lint_fixed (l1 ++ c :: l2) (l1 ++ c' :: l2) = Reject code.
+Proof. exact reject_changed_field_type. Qed.
+Print Assumptions C30_change_field_type.
+
+(** adding a mask to / removing the mask from an existing field, changing the mask it refers to
+    or its bit *)
+Theorem C30_change_mask : forall l1 c c' l2 fs1 of nf fs2 fs2',
+  wf (l1 ++ c :: l2) -> is_type c || c_fun c = true -> same_head c c' ->
+  c_fields c = fs1 ++ of :: fs2 -> c_fields c' = fs1 ++ nf :: fs2' ->
+  match f_mask nf, f_mask of with
+  | Some _, None => True
+  | None, Some _ => True
+  | Some (m', b'), Some (m, b) => mask_get (mapping c') m' <> mask_get (mapping c) m \/ b' <> b
+  | None, None => False
+  end ->
+  exists code, lint_fixed (l1 ++ c :: l2) (l1 ++ c' :: l2) = Reject code.
+Proof. intros l1 c c' l2 fs1 of nf fs2 fs2'. apply reject_changed_mask. reflexivity. Qed.
+Print Assumptions C30_change_mask.
+
+(** changing what a repetition repeats *)
+Theorem C30_change_repeat : forall l1 c c' l2 fs1 of nf fs2 fs2',
+  wf (l1 ++ c :: l2) -> is_type c || c_fun c = true -> same_head c c' ->
+  c_fields c = fs1 ++ of :: fs2 -> c_fields c' = fs1 ++ nf :: fs2' -> f_rep nf <> f_rep of ->
+  exists code, lint_fixed (l1 ++ c :: l2) (l1 ++ c' :: l2) = Reject code.
+Proof. exact reject_changed_repeat. Qed.
+Print Assumptions C30_change_repeat.
+
+(** appending an unmasked field to a constructor *)
+Theorem C30_append_unmasked_field : forall l1 c c' l2 pre f post,
+  wf (l1 ++ c :: l2) -> is_type c = true -> same_head c c' ->
+  c_fields c' = c_fields c ++ pre ++ f :: post -> Forall (fun g => has_mask g = true) pre -> f_mask f = None ->
+  exists code, lint_fixed (l1 ++ c :: l2) (l1 ++ c' :: l2) = Reject code.
+Proof. intros l1 c c' l2 pre f post. apply reject_appended_unmasked. reflexivity. Qed.
+Print Assumptions C30_append_unmasked_field.
+
+(** appending a field under a bit of a local mask that a field of the old constructor uses *)
+Theorem C30_reuse_mask_bit : forall l1 c l2 f m b j fj,
+  wfs (l1 ++ c :: l2) -> is_type c = true ->
+  f_mask f = Some (m, b) ->
+  find_index (fun t => String.eqb (ta_name t) m) (c_targs c) = None ->
+  find_index (fun g => String.eqb (f_name g) m) (c_fields c) = Some j ->
+  nth_error (c_fields c) j = Some fj -> is_nat_field fj = true ->
+  In b (direct_bits c j fj) ->
+  exists code, lint_fixed (l1 ++ c :: l2) (l1 ++ add_field c f :: l2) = Reject code.
+Proof. intros l1 c l2 f m b j fj. apply reject_reused_bit. reflexivity. Qed.
+Print Assumptions C30_reuse_mask_bit.
+
+(** a type used bare (or through its constructor) at an inspected position becomes a union *)
+Theorem C30_bare_used_type_to_union : forall a a' c0 c t,
+  types_of a (c_tname c0) = [c0] -> (1 < length (types_of a' (c_tname c0)))%nat ->
+  In c a -> (t = c_res c \/ exists f, In f (c_fields c) /\ t = f_ty f) -> inspected_bad c0 t ->
+  exists code, lint_fixed a a' = Reject code.
+Proof. intros a a' c0 c t. apply reject_bare_used_to_union. reflexivity. Qed.
+Print Assumptions C30_bare_used_type_to_union.
+
+(* ---- non-vacuity: the premises are satisfiable, the classes are not empty *)
+
+Example C30_ex_type_not_prefix : ~ ty_prefix (TRef "int" false []) (TRef "long" false []).
+Proof. cbn. intros [H _]. discriminate. Qed.
+Example C30_ex_bare_not_prefix : ~ ty_prefix (TRef "Foo" true []) (TRef "Foo" false []).
+Proof. cbn. intros [_ [H _]]. discriminate. Qed.
+Example C30_ex_fewer_args_not_prefix :
+  ~ ty_prefix (TRef "pair" false [TRef "int" false []; TRef "int" false []]) (TRef "pair" false [TRef "int" false []]).
+Proof. cbn. intros [_ [_ [_ H]]]. exact H. Qed.
+Example C30_ex_more_args_is_prefix :
+  ty_prefix (TRef "pair" false [TRef "int" false []]) (TRef "pair" false [TRef "int" false []; TRef "int" false []]).
+Proof. cbn. repeat split. Qed.
+
+Definition ex_c : comb :=
+  mkComb "t" 1 false false [] [mkField "m" None "" (TRef "#" false []); mkField "x" (Some ("m", 0%N)) "" (TRef "int" false [])] "T" (TRef "" false []).
+Example C30_ex_wf : wf [ex_c] /\ is_type ex_c || c_fun ex_c = true.
+Proof. split; [split; cbn; repeat constructor; intros []|reflexivity]. Qed.
+Example C30_ex_remove : exists code, lint_fixed ([] ++ ex_c :: []) ([] ++ []) = Reject code.
+Proof. apply C30_remove_combinator; apply C30_ex_wf. Qed.
+Example C30_ex_reuse_bit :
+  lint_fixed [ex_c] [add_field ex_c (mkField "y" (Some ("m", 0%N)) "" (TRef "int" false []))] = Reject RBitUsed.
+Proof. vm_compute. reflexivity. Qed.
+Example C30_ex_mask_bit :
+  lint_fixed [ex_c] [mkComb "t" 1 false false [] [mkField "m" None "" (TRef "#" false []); mkField "x" (Some ("m", 3%N)) "" (TRef "int" false [])] "T" (TRef "" false [])] = Reject RMaskBit.
 Proof. vm_compute. reflexivity. Qed.
